@@ -2,6 +2,8 @@ import EpgVerif.Props.C08
 import EpgVerif.Tie.ApplySites
 import EpgVerif.Props.C04
 import EpgVerif.Props.C13Cap
+import EpgVerif.Props.C08Merge
+import EpgVerif.Tie.ShiftSites
 open EpgVerif.Props.C08
 #print axioms wf_pointwise
 #print axioms wf_matApply
@@ -22,3 +24,8 @@ open EpgVerif.Props.C08
 #print axioms EpgVerif.Props.C04.wfn_shift
 #print axioms EpgVerif.Props.C13.wfn_capShift
 #print axioms EpgVerif.Props.C13.get_capRun
+#print axioms merge_keeps_mirror
+#print axioms merge_wellformed
+#print axioms merge_centre_real
+#print axioms cellIndex_odd
+#print axioms EpgVerif.Tie.ShiftSites.sites_as_modelled
